@@ -75,7 +75,7 @@ class Token:
 
 # ----------------------------------------------------------------------------- H1 / H2: ObjectPool
 
-PROGRAMS = ("get-release", "get-destroy", "with-raises", "with-ok", "clear", "get-release-twice", "with-raises-keep")
+PROGRAMS = ("get-release", "get-destroy", "with-raises", "with-ok", "clear", "get-release-twice", "with-raises-keep", "get-two")
 
 
 def pool_program(name, pool, holder, tid):
@@ -99,6 +99,17 @@ def pool_program(name, pool, holder, tid):
                 o = track_get()
                 give_up(o)
                 pool.release(o)
+        elif name == "get-two":
+            # holds one object while it checks a second one out (so it holds across scheduling points)
+            o1 = track_get()
+            try:
+                o2 = track_get()
+            except RuntimeError:
+                o2 = None  # "Too many objects": legal when the pool is exhausted
+            for o in (o2, o1):
+                if o is not None:
+                    give_up(o)
+                    pool.release(o)
         elif name == "get-destroy":
             o = track_get()
             give_up(o)
@@ -217,7 +228,8 @@ def pool_harnesses(tier):
     hs = []
     two = [("get-release", "get-release"), ("get-release", "get-destroy"), ("get-destroy", "get-destroy"),
            ("with-raises", "get-release"), ("with-raises", "with-raises"), ("with-ok", "get-destroy"),
-           ("get-release-twice", "get-destroy"), ("with-raises-keep", "get-release"), ("with-raises-keep", "with-raises-keep")]
+           ("get-release-twice", "get-destroy"), ("with-raises-keep", "get-release"), ("with-raises-keep", "with-raises-keep"),
+           ("with-raises-keep", "get-two"), ("get-release", "get-two")]
     for progs in two:
         for max_size in (1, 2):
             for prefill in (0, 1):
@@ -484,6 +496,9 @@ def client_harnesses(tier):
     hs.append(("H3", ("get", "set", "fail"), 2, 0))
     hs.append(("H3", ("get", "close"), 2, 0))
     hs.append(("H3", ("fail", "close"), 2, 0))
+    if tier == "quick":
+        # close() finalising a connection while the call that holds it fails and closes it too: two preemptions
+        hs.append(("H3", ("fail", "close"), 2, "L"))
     return hs
 
 
